@@ -7,6 +7,7 @@ the loop, on every loop exit).
 """
 from ..core import callee_of, callee_names, is_call_to, unwrap, receiver_root, dominating_edges
 from ..families import produced_errors, display_table, text_may_contain, bodies_of_fn
+from ..families import operand_chain as _chain19
 from ..wire import _sccs
 
 LOOP = 'edp_node::node::Node::spawn_receiver_task::{closure#0}'
@@ -66,6 +67,41 @@ def run(ctx):
     if B is not None:
         sends = [(bb, t) for bb, t in B.calls() if is_call_to(t, 'edp_node::process::ProcessHandle::send')]
         found = {}
+        # delivery through a helper `deliver(pid, msg)` of the registry: same thing, one level down
+        helpers_ = {}
+        for q_ in ctx.F.bodies:
+            if not (q_.startswith('edp_node::registry::') or q_.startswith('edp_node::process::')) or ctx.F.bodies[q_]['kind'] != 'AssocFn':
+                continue
+            for HB in bodies_of_fn(P, q_):
+                for hb, ht in HB.calls():
+                    if is_call_to(ht, 'edp_node::process::ProcessHandle::send') and len(ht['args']) > 1:
+                        mroot = receiver_root(HB, ht['args'][1])[0]
+                        chain = ' '.join(str(x) for x in _chain19(HB, ht['args'][0])) + str(HB.origin(ht['args'][0]))
+                        if mroot and mroot[0] == 'arg' and ('::get' in chain):
+                            # which parameter keys the lookup?
+                            b0 = ctx.F.bodies[q_]
+                            pidx = [i_ for i_ in range(1, b0.get('argc', 0) + 1) if 'ExternalPid' in b0['locals'][i_]['ty']]
+                            midx = [i_ for i_ in range(1, b0.get('argc', 0) + 1) if 'Message' in b0['locals'][i_]['ty']]
+                            if len(pidx) == 1 and len(midx) == 1:
+                                helpers_[q_] = (pidx[0] - 1, midx[0] - 1)
+        for bb, t in B.calls():
+            hn = [n for n in callee_names(t) if n in helpers_]
+            if not hn:
+                continue
+            pi_, mi_ = helpers_[hn[0]]
+            arm = None
+            for (src, vals, dst) in dominating_edges(B, bb):
+                sd = B.switch_on_discr(src)
+                if sd and sd[1] == CM and 'else' not in vals and len(vals) == 1:
+                    arm = ctx.F.adts[CM]['variants'][vals[0]]['n']
+            mo = B.origin(t['args'][mi_])
+            mrv = mo[1] if mo[0] == 'agg' else None
+            pb, pp = unwrap(B.origin(t['args'][pi_]))
+            if pb is not None and pb[0] == 'call' and pb[1] and pb[1].endswith('ProcessRegistry::whereis'):
+                wt = B.blocks[pb[2]]['t']
+                found.setdefault(arm, []).append((bb, mrv, cm_field(B, wt['args'][1]), 'whereis'))
+            else:
+                found.setdefault(arm, []).append((bb, mrv, cm_field(B, t['args'][pi_]), 'pid'))
         for bb, t in sends:
             # which control variant arm are we in?
             arm = None
@@ -452,6 +488,9 @@ def run(ctx):
     from ..order import SubCtx as _SubRI
     from . import c10 as _c10ri
     _c10ri.run(_SubRI(ctx, 'C19.1-recipient-identity', 'c10', allow=('C10.3-logical-fields',)))
+
+    from .c18 import rwlock_guard_rules as _rwl
+    _rwl(ctx, 'C19.4-table-guards-not-across-awaits')
 
 
 def _outcomes(L, start, loop, recv_bb):
